@@ -9,9 +9,9 @@ What a Lean model can carry and what it cannot (DESIGN §9 C03):
   (`Rc<Cow<[u8]>>`), modelled with explicit reference counts in Model/Bitstr.lean:
   `shared_buffer_reads_isolated`, `shared_buffer_detach_isolated` (re-exported from the C04 layer):
   no range operation, clone, drop or detach on one handle changes the bits any other handle
-  denotes; every in-place write (`append`, `insert`, `invert`) happens after `detach`.
-  Isolation of the in-place writes themselves is covered by the C04 correspondence and oracle
-  (shared / sliced / parent-dropped histories), not yet by a theorem.
+  denotes; every in-place write (`append`, `insert`, `invert`) happens after `detach`, and
+  `shared_buffer_writes_isolated`: whatever other handle exists while one of these three consumes its
+  receiver — in particular the same value held by a cloned interpreter — denotes the same bits afterwards.
 * Determinism of re-running a snapshot: `rerun_deterministic` — two machines that agree on
   everything a program can observe (they may differ in the reverse log, the instruction meter,
   captured stdout) execute the same steps and agree after every one (from C02's `replay`).
@@ -33,6 +33,27 @@ theorem shared_buffer_reads_isolated (h : Bitstr.Heap) (s t : Bitstr.Handle) (a 
     Bitstr.bits (Bitstr.splitAt h s a).1 t = Bitstr.bits h t ∧ Bitstr.bits (Bitstr.clone h s).1 t = Bitstr.bits h t ∧
     Bitstr.bits (Bitstr.drop h s) t = Bitstr.bits h t :=
   C04.range_ops_isolation h s t a b
+
+/-- the in-place writes themselves: `append`, `insert` and `invert` consume their receiver `s`; any other handle `u`
+    (a clone of `s` held by a snapshot, a slice of the same buffer, an unrelated value) denotes the same bits
+    afterwards.  `u` sharing `s`'s buffer is expressed the way the implementation knows it: the count is ≥ 2. -/
+theorem shared_buffer_writes_isolated (h : Bitstr.Heap) (s t u : Bitstr.Handle) (k : Nat)
+    (ws : Bitstr.WF h s) (wt : Bitstr.WF h t) (wu : Bitstr.WF h u)
+    (hu : u.buf = s.buf → 2 ≤ (h.buf s.buf).rc) :
+    (∃ h' r, Bitstr.invert h s = .ok (h', r) ∧ Bitstr.bits h' u = Bitstr.bits h u) ∧
+    ((t.buf = s.buf → 2 ≤ (h.buf s.buf).rc) →
+      ∃ h' r, Bitstr.append h s t = .ok (h', r) ∧ Bitstr.bits h' u = Bitstr.bits h u) ∧
+    (s.start + k ≤ s.end_ → s.end_ ≤ Bitstr.usizeMax →
+      ∃ h' r, Bitstr.insert h s k t = .ok (h', some r) ∧ Bitstr.bits h' u = Bitstr.bits h u) := by
+  refine ⟨?_, ?_, ?_⟩
+  · obtain ⟨h', r, h1, _, _, f⟩ := C04.invert_refines h s ws
+    exact ⟨h', r, h1, (f.isolation u wu hu).2⟩
+  · intro ht
+    obtain ⟨h', r, h1, _, _, f⟩ := C04.append_refines h s t ws wt ht
+    exact ⟨h', r, h1, (f.isolation u wu hu).2⟩
+  · intro hk hm
+    obtain ⟨h', r, h1, _, _, f⟩ := C04.insert_refines h s t k ws wt hk hm
+    exact ⟨h', r, h1, (f.isolation u wu hu).2⟩
 
 /-- `detach` (the gate before every in-place write) leaves every other handle's bits unchanged -/
 theorem shared_buffer_detach_isolated (h : Bitstr.Heap) (s : Bitstr.Handle) (wf : Bitstr.WF h s)
